@@ -273,6 +273,11 @@ def oracle_fault_history(case):
         elif forced:
             ids = [forced]
             own_ids.append(forced)       # Fault.response()/dump() may keep a forced id (they do), or not
+        elif forced is not None:
+            # a forced 0 / 0.0 / "": the pinned code reads it as "none forced" (`if rpcid:`); honouring it is what the
+            # statement says of caller-supplied numbers ("including 0") and is left open for "", so both are accepted
+            ids = own_ids + [forced]
+            own_ids = own_ids + [forced]
         else:
             ids = own_ids
         exps = []
